@@ -1,6 +1,7 @@
 package main
 
 import (
+	"go/token"
 	"go/types"
 	"strings"
 
@@ -144,20 +145,22 @@ func reflectValueIntrinsics2() map[string]intrinsic {
 			if et == nil {
 				it.goPanicValue(mkStrIface(it, "reflect.MakeSlice of non-slice type"))
 			}
-			n := it.concInt(args[1], types.Typ[types.Int])
-			c := it.concInt(args[2], types.Typ[types.Int])
-			if n < 0 {
+			intT := types.Typ[types.Int]
+			zero := Value{}
+			if it.truth(it.binop(token.LSS, intT, args[1], zero, intT)) {
 				it.goPanicValue(mkStrIface(it, "reflect.MakeSlice: negative len"))
 			}
-			if c < 0 {
+			if it.truth(it.binop(token.LSS, intT, args[2], zero, intT)) {
 				it.goPanicValue(mkStrIface(it, "reflect.MakeSlice: negative cap"))
 			}
-			if n > c {
+			if it.truth(it.binop(token.GTR, intT, args[1], args[2], intT)) {
 				it.goPanicValue(mkStrIface(it, "reflect.MakeSlice: len > cap"))
 			}
-			if c > 1<<16 {
+			if it.truth(it.binop(token.GTR, intT, args[2], Value{Bits: 1 << 16}, intT)) {
 				it.unsupported("reflect.MakeSlice with a capacity over 65536")
 			}
+			c := it.concInt(args[2], intT)
+			n := it.concInt(args[1], intT)
 			return Value{Ref: &ReflVal{t: t, v: Value{Ref: it.newSlice(et, int(n), int(c))}}}
 		},
 		"reflect.Copy": func(it *Interp, fn *ssa.Function, args []Value) Value {
@@ -171,7 +174,7 @@ func reflectValueIntrinsics2() map[string]intrinsic {
 			switch x := s.cur().Ref.(type) {
 			case Slice:
 				for i := 0; i < x.n; i++ {
-					vals = append(vals, x.c[i].load())
+					vals = append(vals, it.loadCell(x.c[i]))
 				}
 			case *Str:
 				vals = x.Bytes()
@@ -203,7 +206,7 @@ func reflectValueIntrinsics2() map[string]intrinsic {
 			xs, _ := args[1].Ref.(Slice)
 			add := it.newSlice(et, xs.n, xs.n)
 			for i := 0; i < xs.n; i++ {
-				x := it.reflVal(xs.c[i].load(), "Append")
+				x := it.reflVal(it.loadCell(xs.c[i]), "Append")
 				add.c[i].storeRaw(reflAssign(x.cur(), x.t, et))
 			}
 			return Value{Ref: &ReflVal{t: d.t, v: it.appendValues(d.cur(), Value{Ref: add}, et)}}
@@ -219,7 +222,7 @@ func reflectValueIntrinsics2() map[string]intrinsic {
 			st := c.typ.Underlying().(*types.Struct)
 			for i := 0; i < st.NumFields(); i++ {
 				if st.Field(i).Name() == "New" {
-					f := c.sub[i].load()
+					f := it.loadCell(c.sub[i])
 					if f.Ref == nil {
 						return Value{}
 					}
@@ -230,6 +233,58 @@ func reflectValueIntrinsics2() map[string]intrinsic {
 			return Value{}
 		},
 		"(*sync.Pool).Put": noop,
+		"reflect.MakeChan": func(it *Interp, fn *ssa.Function, args []Value) Value {
+			t := it.tokenArg(args[0]).t
+			if _, ok := t.Underlying().(*types.Chan); !ok {
+				it.goPanicValue(mkStrIface(it, "reflect.MakeChan of non-chan type"))
+			}
+			intT := types.Typ[types.Int]
+			if it.truth(it.binop(token.LSS, intT, args[1], Value{}, intT)) {
+				it.goPanicValue(mkStrIface(it, "reflect.MakeChan: negative buffer size"))
+			}
+			if it.truth(it.binop(token.GTR, intT, args[1], Value{Bits: 1 << 16}, intT)) {
+				it.unsupported("reflect.MakeChan with a buffer over 65536")
+			}
+			n := it.concInt(args[1], intT)
+			return Value{Ref: &ReflVal{t: t, v: Value{Ref: &ChanObj{cap: int(n), epoch: it.epoch}}}}
+		},
+		"(reflect.Value).Close": func(it *Interp, fn *ssa.Function, args []Value) Value {
+			rv := it.reflVal(args[0], "Close")
+			if _, ok := rv.t.Underlying().(*types.Chan); !ok {
+				it.reflKindPanic("Close", rv)
+			}
+			c, _ := rv.cur().Ref.(*ChanObj)
+			if c == nil {
+				it.goPanicValue(it.errorString("close of nil channel"))
+			}
+			if c.closed {
+				it.goPanicValue(it.errorString("close of closed channel"))
+			}
+			c.closed = true
+			return Value{}
+		},
+		"(reflect.Value).Send": func(it *Interp, fn *ssa.Function, args []Value) Value {
+			rv := it.reflVal(args[0], "Send")
+			ct, ok := rv.t.Underlying().(*types.Chan)
+			if !ok {
+				it.reflKindPanic("Send", rv)
+			}
+			x := it.reflVal(args[1], "Send")
+			if c, _ := rv.cur().Ref.(*ChanObj); c != nil && !c.closed && len(c.q) >= c.cap {
+				it.unsupported("send on a full channel (would block; goroutines are sequentialised)")
+			}
+			it.send(rv.cur(), reflAssign(x.cur(), x.t, ct.Elem()))
+			return Value{}
+		},
+		"(reflect.Value).Recv": func(it *Interp, fn *ssa.Function, args []Value) Value {
+			rv := it.reflVal(args[0], "Recv")
+			ct, ok := rv.t.Underlying().(*types.Chan)
+			if !ok {
+				it.reflKindPanic("Recv", rv)
+			}
+			tp := it.recv(rv.cur(), true, rv.t).Ref.(Tuple)
+			return Value{Ref: Tuple{Value{Ref: &ReflVal{t: ct.Elem(), v: tp[0]}}, tp[1]}}
+		},
 		"reflect.MakeMap": func(it *Interp, fn *ssa.Function, args []Value) Value {
 			return it.reflMakeMap(args[0])
 		},
@@ -370,7 +425,7 @@ func (it *Interp) appendValues(dstv, srcv Value, et types.Type) Value {
 	switch x := srcv.Ref.(type) {
 	case Slice:
 		for i := 0; i < x.n; i++ {
-			add = append(add, x.c[i].load())
+			add = append(add, it.loadCell(x.c[i]))
 		}
 	case *Str:
 		add = x.Bytes()
@@ -388,7 +443,7 @@ func (it *Interp) appendValues(dstv, srcv Value, et types.Type) Value {
 	newcap := max(len(dst.c)*2, need, 4)
 	ns := it.newSlice(et, need, newcap)
 	for i := 0; i < dst.n; i++ {
-		ns.c[i].storeRaw(dst.c[i].load())
+		ns.c[i].storeRaw(it.loadCell(dst.c[i]))
 	}
 	for i, v := range add {
 		ns.c[dst.n+i].storeRaw(v)
@@ -421,7 +476,7 @@ func (it *Interp) reflCall(fv, argv Value, callSlice bool) Value {
 	}
 	args := make([]Value, np)
 	for i := 0; i < np; i++ {
-		a := as.c[i].load()
+		a := it.loadCell(as.c[i])
 		if !reflValid(a) {
 			it.goPanicValue(mkStrIface(it, "reflect: Call using zero Value argument"))
 		}
